@@ -25,11 +25,11 @@ COMPONENTS = {'real': ['crypto.py (Prf, prf+, Cipher, Integrity, MODPDH, ECDH)',
                        'generate_child_sa_key_material, rekey derivation)', 'message.py', 'xfrm.py'],
               'stub': ['reference key schedule (sim/refike.py: hmac/hashlib, pow() over recomputed RFC 3526 primes, library EC point '
                        'multiplication)', 'DH scalars from the seam', 'kernel model']}
-ASSUMPTIONS = ['the two daemons run the same code, so the symmetry is broken only by the reference (no active reference peer yet: interop '
-               'is judged by the reference being able to open / re-derive everything the daemons exchange and install)',
+ASSUMPTIONS = ['in the main batch the two daemons run the same code and the symmetry is broken only by the passive reference (wiretap); in the '
+               'refpeer batch (30 %) the other end is the active reference responder sim/refpeer.py, which derives every key itself from the RFC',
                'prf+ is exercised at the output lengths the key schedule requests (68..448 octets), not at every length']
 NOT_EXERCISED = ['elliptic curves are the cryptography library\'s named curves (P-256/384/521): their parameters are not re-derived, only used']
-EXPECT_REACH = ['sessions_followed', 'children_keymat_compared', 'ike_rekeys_followed', 'children_pfs', 'prf.2', 'prf.5', 'prf.7',
+EXPECT_REACH = ['batch.refpeer', 'refpeer.keymat_compared', 'refpeer.ike_rekeys', 'refpeer.invalid_ke_on_ike_rekey', 'refpeer.children_pfs', 'sessions_followed', 'children_keymat_compared', 'ike_rekeys_followed', 'children_pfs', 'prf.2', 'prf.5', 'prf.7',
                 'integ.2', 'integ.12', 'integ.14', 'encr.128', 'encr.256', 'dh.14', 'dh.19', 'dh.20', 'dh.21', 'dh.15', 'dh.16',
                 'leading_zero_shared', 'leading_zero_public', 'nonce_16', 'nonce_long']
 
@@ -40,8 +40,21 @@ def generate(seed, tier):
     o = {'conf': {'profile': r.choice(['fast', 'mid']), 'entries': 2, 'slow_dh': slow}, 'both_initiate': r.random() < 0.3,
          'packets': r.randint(1, 4), 'duration': r.choice([20, 40, 70]), 'forced': 3, 'forced_kinds': ['expire_soft', 'jump_rekey'],
          'faults': []}
+    refpeer = r.random() < 0.3
+    if refpeer:
+        # batch 'refpeer': the other end is not a second copy of the same code but the active reference responder (sim/refpeer.py): own
+        # preference order, nonce lengths 16..256, COOKIE and INVALID_KE_PAYLOAD rounds - also on an IKE_SA rekey, keeping the IKE_SA -,
+        # vendor IDs / unknown notifies / unknown non-critical payloads, extra padding
+        o['conf'].update(auth='psk', ike_lifetime=r.choice([6, 10, 16, 30]), slow_dh=False)
+        o['both_initiate'] = False
+        o['forced_kinds'] = ['expire_soft', 'expire_hard', 'jump_rekey', 'jump_dpd']
     sc = workload.pair_scenario(seed, PROP, o)
     sc['knobs'] = {'nonce_edges': r.random() < 0.4}      # bias the daemon's nonce-length draws to the boundaries 16 / 255
+    if refpeer:
+        cb = sc['nodes'].pop('B')
+        sc['ops'] = [op for op in sc['ops'] if op.get('node') != 'B']
+        sc['refpeer'] = {'seed': r.randrange(2 ** 31), 'conf': cb['conf'], 'addr': cb['addrs'][0]}
+        sc['meta']['batch'] = 'refpeer'
     return sc
 
 
@@ -52,10 +65,73 @@ def run(scenario):
         ctx['wire'] = WireLog(w)
         ctx['cov'] = workload.Coverage(w)
         ctx['tap'] = Wiretap(w)
+        if scenario.get('refpeer'):
+            from sim.refpeer import RefPeer
+            rp = scenario['refpeer']
+            conn = next(iter(configs.read_conf(rp['conf']).values()))
+            ctx['peer'] = RefPeer(w, rp['addr'], conn, rp['seed'])
+
+    def judge_refpeer(w, ctx, reach):
+        peer = ctx['peer']
+        for k_, v_ in peer.counts.items():
+            reach['refpeer.' + k_] = v_
+        for k_, v_ in peer.k.items():
+            reach[f'refpeer.knob.{k_}.{v_}'] = 1
+        for p in peer.problems:
+            if p['kind'] == 'cannot_open_protected_message':
+                return w.violation(PROP, 'traffic_not_under_rfc_keys', dict(p['sig'], peer='reference'), p['detail'])
+            if p['kind'] in ('ke_wrong_length', 'ke_invalid'):
+                return w.violation(PROP, 'ke_not_fixed_width', {'peer': 'reference'}, p['detail'])
+            foreign = {'auth_does_not_verify': 'C02', 'retransmission_differs': 'C13', 'request_id_outside_window': 'C08', 'initiator_flag_clear': 'C08',
+                       'ike_sa_init_request_with_responder_spi': 'C08', 'cookie_not_returned_unchanged': 'C18', 'cookie_not_first_payload': 'C18'}
+            w.violation(foreign.get(p['kind'], 'C05'), 'reference_peer.' + p['kind'], {}, p['detail'])
+        # the daemon must accept what a conforming peer sends under the RFC keys: a checksum / syntax error on a reference message means
+        # its keys (or its parser) differ
+        for (t, nname, lvl, msg) in w.logs:
+            if 'Error while processing an event' in msg and 'CHECKSUM' in msg:
+                return w.violation(PROP, 'reference_message_rejected', {'error': 'checksum'},
+                                   f'{nname} at t={t:.2f}: a message of the reference peer, protected under the keys RFC 7296 gives for the IKE_SA, was '
+                                   f'refused: {msg[-160:]}')
+            if 'Error while processing an event' in msg and ('InvalidSyntax' in msg or 'UnsupportedCritical' in msg):
+                # the keys fit (the checksum verified): what the parser objects to is the codec's business (C05 / C06)
+                w.violation('C05', 'reference_peer.well_formed_message_rejected', {}, f'{nname} at t={t:.2f}: {msg[-200:]}')
+        node = w.nodes['A']
+        idx = newsa_index(node)
+        from sim.kernel import _addr_raw
+        from sim.childcheck import PROTO_NUM
+        a_addr = scenario['meta']['a_addr']
+        for ch in peer.children:
+            proto = PROTO_NUM.get(ch['proto'])
+            km = ch['keymat']
+            for key, want_e, want_a, who in (((_addr_raw(peer.addr), proto, ch['spi_resp']), km['ei'], km['ai'], 'daemon outbound'),
+                                             ((_addr_raw(a_addr), proto, ch['spi_init']), km['er'], km['ar'], 'daemon inbound')):
+                rec = idx.get(key)
+                if rec is None:
+                    reach['refpeer.child_not_installed'] = reach.get('refpeer.child_not_installed', 0) + 1
+                    continue
+                c, a = alg(rec, K['XFRMA_ALG_CRYPT']), alg(rec, K['XFRMA_ALG_AUTH'])
+                got = (c[2] if c else b'', a[2] if a else b'')
+                reach['children_keymat_compared'] = reach.get('children_keymat_compared', 0) + 1
+                reach['refpeer.keymat_compared'] = reach.get('refpeer.keymat_compared', 0) + 1
+                if got != (want_e, want_a):
+                    which = 'encryption' if got[0] != want_e else 'integrity'
+                    return w.violation(PROP, 'keymat_differs_from_rfc', {'key': which, 'pfs': ch['pfs'], 'initial': ch['initial'], 'proto': ch['proto'], 'peer': 'reference'},
+                                       f'CHILD_SA {ch["spi_init"].hex()}/{ch["spi_resp"].hex()} granted by the reference peer ({who}): the {which} key in '
+                                       f'XFRM_MSG_NEWSA is not the RFC 7296 2.17 KEYMAT slice')
+        for s_ in peer.sessions.values():
+            reach['prf.%d' % s_.suite.prf] = 1
+            reach['integ.%d' % s_.suite.integ] = 1
+            reach['encr.%d' % (s_.suite.ek * 8)] = 1
+            reach['dh.%d' % s_.suite.dh] = 1
+            if s_.parent is not None:
+                reach['refpeer.rekeyed_generations'] = max(reach.get('refpeer.rekeyed_generations', 0), peer._generation(s_))
 
     def at_end(w, ctx):
         tap = ctx['tap']
         reach = ctx.setdefault('reach', {})
+        if scenario.get('refpeer'):
+            reach['batch.refpeer'] = 1
+            return judge_refpeer(w, ctx, reach)
         if scenario.get('seed', 0) % 25 == 0:
             # pure-function residue of the statement (no schedule or fault in it; evaluated directly, seeded inputs): prf+ at every output
             # length up to 255 blocks' worth, and the MODP primes against the ones recomputed from pi (RFC 3526)
